@@ -7,6 +7,7 @@ package server
 // C13: namespaces
 
 //@ unit server.getURLParts
+//@   opt replay
 //@   prop C13
 //@   ensures [concat] ret2 == nil ==> ret0 + ret1 == url
 //@   ensures [ends-in-separator] ret2 == nil ==> hasSuffix(ret0, "#") || hasSuffix(ret0, "/")
